@@ -42,7 +42,7 @@ CLAIM = {
     'technique': 'Lean 4 proof (loop invariant over inset trees; metric/IVT lemmas) + differential correspondence on the recorded inset tree; GEOS sampled (partial)',
 }
 
-KEYS = ('kind', 'par', 'd', 'turns', 'rot')
+KEYS = ('kind', 'par', 'd', 'turns', 'rot', 'prior')
 TOOLPATH_LIMIT_S = 60.0      # the slowest tool-path of the thorough tier takes about 2 s (measured, reported in the evidence notes)
 
 
@@ -176,7 +176,9 @@ def gen_case(rng):
         d = rng.choice([0.001, 0.002])
         par['d'] = d
     par['d'] = d
-    return {'kind': kind, 'par': par, 'd': d, 'turns': turns, 'rot': rng.choice([0, 0, 90])}
+    # history on one object: the trench has produced a tool-path before, with a coarser spacing or at another place
+    return {'kind': kind, 'par': par, 'd': d, 'turns': turns, 'rot': rng.choice([0, 0, 90]),
+            'prior': rng.choice([None, None, None, 'coarser', 'moved'])}
 
 
 class Recorder:
@@ -210,12 +212,40 @@ def check_case(ctx, case, nsample=3000):
     import shapely
     from shapely import geometry
     from femto.trench import Trench
-    info = {k: case[k] for k in KEYS}
+    info = {k: case.get(k) for k in KEYS}
     block = make_shape(case['kind'], case['par'], case['rot'])
     if block.geom_type != 'Polygon' or not block.is_valid or block.is_empty or block.interiors or block.area < 1e-9:
         return None
     d, turns = case['d'], case['turns']
-    t = Trench(block, delta_floor=d, safe_inner_turns=turns)
+    prior = case.get('prior')
+    if prior:
+        from shapely import affinity
+        b0 = affinity.translate(block, 0.37, -0.21) if prior == 'moved' else block
+        t = Trench(b0, delta_floor=d if prior == 'moved' else 3.0 * d, safe_inner_turns=turns)
+        try:
+            with core.quiet(), core.time_limit(TOOLPATH_LIMIT_S):
+                for _ in t.toolpath():
+                    pass
+        except core.InfraError:
+            raise
+        except Exception:  # noqa: that run is judged when it is the measured run of a case
+            pass
+        t.block, t.delta_floor = block, d
+        # the object remembers two decisions taken for its previous block / spacing (number of contour turns, hatch direction:
+        # cached properties of the library as it is); the history is measured only where they are what a fresh object decides,
+        # i.e. where "same block, same spacing, same decisions" must give the same tool-path
+        fresh = Trench(block, delta_floor=d, safe_inner_turns=turns)
+        try:
+            with core.quiet():
+                same = (int(fresh.num_insets), fresh.orientation) == (int(t.num_insets), t.orientation)
+        except Exception:  # noqa
+            same = False
+        ctx.count('floor.prior', prior + ('' if same else ' (skipped: remembered decisions differ)'))
+        if not same:
+            t, case = fresh, {**case, 'prior': None}
+            info['prior'] = None
+    else:
+        t = Trench(block, delta_floor=d, safe_inner_turns=turns)
     with Recorder() as rec:
         try:
             import time as _time
@@ -407,7 +437,7 @@ def run(ctx):
 
 def replay(ctx, payload):
     c = payload['case']
-    case = {k: c[k] for k in KEYS}
+    case = {k: c.get(k) for k in KEYS}
     case['pseed'] = c.get('pseed', 0)
     r = check_case(ctx, case, nsample=6000)
     if r:
